@@ -189,6 +189,11 @@ func c04Alphabet(c *Config, thorough bool) (full, mid []WRec) {
 					mid = append(mid, r)
 				}
 			}
+			// payloads a text-minded decoder might "clean": a byte order mark in front (and alone),
+			// white space at either end, a trailing NUL - the reported payload is what Length delimits
+			for _, s := range []string{"\xef\xbb\xbfx", "\xef\xbb\xbf", " x ", "\r\n", "x\x00", "\xef\xbb\xbf\xef\xbb\xbf"} {
+				full = append(full, WRec{Code: d.Code, Flags: mflag(d.Must), Decl: -1, Payload: []byte(s), Tag: k.String() + "/text"})
+			}
 		}
 	}
 	for _, n := range []int{0, 1, 4, 7, 12} {
@@ -413,7 +418,7 @@ func c04Enum(ctx *ev.Ctx, fn func(*Config, C04Case)) string {
 			}
 		}
 	}
-	return "bodies assembled from raw (code, flags, vendor, declared length, payload) records: every fixed-width type (Unsigned32/64, Integer32/64, Float32/64, Enumerated, Time, IPv4, IPv6) with payloads of every length 0..20 whose excess bytes are well-formed AVP images (the smuggling shape), Address of families {0,1,2,3,8,65535} x 0..20 address bytes, variable-width types, undefined codes with and without vendor id, payloads of 65527 / 65528 / 65536 / 70001 bytes (declared lengths around 2^16); singles, before/after another AVP, all ordered pairs of the mid alphabet (thorough: full alphabet, and triples of mid), the same inside grouped AVPs at depth 1..2 (thorough 3), empty groups; declared lengths 0..11, natural-1, natural+1..+13, 4096 and 2^24-1 at every position; under the generated, default and base dictionaries. Distinct by body bytes."
+	return "bodies assembled from raw (code, flags, vendor, declared length, payload) records: every fixed-width type (Unsigned32/64, Integer32/64, Float32/64, Enumerated, Time, IPv4, IPv6) with payloads of every length 0..20 whose excess bytes are well-formed AVP images (the smuggling shape), Address of families {0,1,2,3,8,65535} x 0..20 address bytes, variable-width types (also with a byte order mark in front, white space at the ends, a trailing NUL), undefined codes with and without vendor id, payloads of 65527 / 65528 / 65536 / 70001 bytes (declared lengths around 2^16); singles, before/after another AVP, all ordered pairs of the mid alphabet (thorough: full alphabet, and triples of mid), the same inside grouped AVPs at depth 1..2 (thorough 3), empty groups; declared lengths 0..11, natural-1, natural+1..+13, 4096 and 2^24-1 at every position; under the generated, default and base dictionaries. Distinct by body bytes."
 }
 
 // c04Eval compares the decoder with the reference framer for one body.
